@@ -1130,6 +1130,80 @@ def rule_lvalues(chk, prog, tier):
     r.exhaustive = True
 
 
+# ------------------------------------------------------------------ C01.n compound assignment
+
+def rule_compound_assign(chk, prog, tier):
+    r = chk.rule('C01.n', 'E1 op= E2 is rewritten so that E1 is designated once: T = &E1, *T = *T op E2 with one temporary T; the operator is the one spelled, its operands are *T (the bit-field of *T for bit-fields) and E2, and the value and type are those of E1',
+                 floor=60, oracle='C11 6.5.16.2p3: E1 is evaluated only once')
+    fn = prog.require_func('assignexpr', 'expr.c')
+    OPS = [('TMULASSIGN', 'TMUL'), ('TDIVASSIGN', 'TDIV'), ('TMODASSIGN', 'TMOD'), ('TADDASSIGN', 'TADD'), ('TSUBASSIGN', 'TSUB'), ('TSHLASSIGN', 'TSHL'), ('TSHRASSIGN', 'TSHR'), ('TBANDASSIGN', 'TBAND'), ('TXORASSIGN', 'TXOR'), ('TBORASSIGN', 'TBOR')]
+    LT = ['int', 'char', 'long', 'uint', 'double', 'ptr', 'bitfield']
+    for atok, op in OPS:
+        for lt in LT:
+            for rt in ('int', 'long', 'double'):
+                if lt == 'ptr' and (op not in ('TADD', 'TSUB') or rt == 'double'): continue
+                if (lt == 'double' or rt == 'double') and op in ('TMOD', 'TSHL', 'TSHR', 'TBAND', 'TXOR', 'TBOR'): continue
+                def runner(it):
+                    w = World(prog, it=it, target='x86_64-sysv')
+                    u = universe(w)
+                    T = {'int': u['int'], 'char': u['char'], 'long': u['long'], 'uint': u['uint'], 'double': u['double'], 'ptr': w.mkptr(u['int']), 'bitfield': u['uint']}
+                    X = w.temp(T[lt], 'x'); X.obj.f[('lvalue',)] = 1
+                    L = X
+                    if lt == 'bitfield':
+                        L = w.mkexpr('EXPRBITFIELD', u['uint'], X, u__bitfield__bits__before=3, u__bitfield__bits__after=24); L.obj.f[('lvalue',)] = 1
+                    Y = w.temp(T[rt], 'y')
+                    seq = {'i': 0}
+                    tokobj = it.gobj('tok')
+                    def settok(k):
+                        tokobj.f[('kind',)] = ev(prog, k); tokobj.f[('lit',)] = None
+                        tokobj.f[('loc', 'file')] = None; tokobj.f[('loc', 'line')] = 1; tokobj.f[('loc', 'col')] = 1
+                    def condexpr(i2, a, e):
+                        seq['i'] += 1
+                        if seq['i'] == 1:
+                            settok(atok); return L
+                        settok('TSEMICOLON'); return Y
+                    it.models.update({'condexpr': condexpr, 'next': lambda i2, a, e: None, 'free': lambda i2, a, e: None, 'xmalloc': lambda i2, a, e: Ptr(Obj('heap@%s' % e.get('line'), 'heap'), ()),
+                                      'fatal': lambda i2, a, e: (_ for _ in ()).throw(Terminal('fatal', a)), 'error': lambda i2, a, e: (_ for _ in ()).throw(Terminal('error', cmodel.fmt_of(i2, a, 1)))})
+                    e = it.call(fn, [Ptr(Obj('scope', 'heap'), ())])
+                    K = lambda x: {ev(prog, k): k for k in ('EXPRCOMMA', 'EXPRASSIGN', 'EXPRTEMP', 'EXPRUNARY', 'EXPRBINARY', 'EXPRCAST', 'EXPRBITFIELD', 'EXPRCONST')}.get(it.load(x.obj, ('kind',)), '?')
+                    def strip(x):
+                        while K(x) == 'EXPRCAST': x = it.load(x.obj, ('base',))
+                        return x
+                    if K(e) != 'EXPRCOMMA': return 'not a comma expression'
+                    a1 = it.load(e.obj, ('base',)); a2 = it.load(a1.obj, ('next',))
+                    if K(a1) != 'EXPRASSIGN' or a2 is None or K(a2) != 'EXPRASSIGN' or it.load(a2.obj, ('next',)) is not None: return 'not two assignments'
+                    tmp = it.load(a1.obj, ('u', 'assign', 'l')); addr = strip(it.load(a1.obj, ('u', 'assign', 'r')))
+                    if K(tmp) != 'EXPRTEMP': return 'first assignment does not set a temporary'
+                    if not (K(addr) == 'EXPRUNARY' and it.load(addr.obj, ('op',)) == ev(prog, 'TBAND') and it.load(addr.obj, ('base',)).obj is X.obj): return 'the temporary is not set to &E1'
+                    dst = it.load(a2.obj, ('u', 'assign', 'l')); val_ = strip(it.load(a2.obj, ('u', 'assign', 'r')))
+                    def is_deref_tmp(x):
+                        return K(x) == 'EXPRUNARY' and it.load(x.obj, ('op',)) == ev(prog, 'TMUL') and it.load(x.obj, ('base',)).obj is tmp.obj
+                    def is_target(x):
+                        if lt == 'bitfield':
+                            return K(x) == 'EXPRBITFIELD' and is_deref_tmp(it.load(x.obj, ('base',))) and (it.load(x.obj, ('u', 'bitfield', 'bits', 'before')), it.load(x.obj, ('u', 'bitfield', 'bits', 'after'))) == (3, 24)
+                        return is_deref_tmp(x)
+                    if not is_target(dst): return 'the store does not go through the temporary'
+                    if K(val_) != 'EXPRBINARY': return 'no binary operation'
+                    bop = it.load(val_.obj, ('op',)); bl = strip(it.load(val_.obj, ('u', 'binary', 'l'))); br = it.load(val_.obj, ('u', 'binary', 'r'))
+                    if bop != ev(prog, op): return 'operator %s instead of %s' % (bop, ev(prog, op))
+                    if not is_target(bl): return 'left operand of the operation is not *T'
+                    brs = strip(br)
+                    if lt == 'ptr':
+                        # the integer is scaled: (y converted) * 4
+                        if not (K(brs) == 'EXPRBINARY' and it.load(brs.obj, ('op',)) == ev(prog, 'TMUL')): return 'pointer step not scaled'
+                        inner = [strip(it.load(brs.obj, ('u', 'binary', 'l'))), strip(it.load(brs.obj, ('u', 'binary', 'r')))]
+                        if not any(x.obj is Y.obj for x in inner): return 'right operand is not E2'
+                    elif brs.obj is not Y.obj: return 'right operand is not E2'
+                    if it.load(e.obj, ('type',)).obj is not T[lt].obj: return 'type of the expression is not the type of E1'
+                    return 'ok'
+                runs = explore(prog, runner, {}, max_runs=4, on_unsupported='keep')
+                if len(runs) != 1 or runs[0].outcome == 'unsupported':
+                    raise AnalysisBroken('assignexpr %s %s %s: %s' % (lt, atok, rt, runs[0].detail if runs else 'no run'))
+                run = runs[0]
+                r.instance(run.outcome == 'return' and run.value == 'ok', 'compound:%s %s= %s' % (lt, op[1:].lower(), rt), 'expr.c:%s' % fn.get('line'), '%s %s' % (run.outcome, run.value if run.outcome == 'return' else run.detail))
+    r.exhaustive = True
+
+
 def run(chk, tier):
     prog = facts.programs()['cproc-qbe']
     chk.guard('C01.a', lambda: rule_binop(chk, prog, tier))
@@ -1145,5 +1219,6 @@ def run(chk, tier):
     chk.guard('C01.k', lambda: rule_exprgrammar(chk, prog, tier))
     chk.guard('C01.l', lambda: rule_return(chk, prog, tier))
     chk.guard('C01.m', lambda: rule_lvalues(chk, prog, tier))
+    chk.guard('C01.n', lambda: rule_compound_assign(chk, prog, tier))
     from props import c01f
     chk.guard('C01.f', lambda: c01f.rule_statements(chk, prog, tier))
